@@ -170,7 +170,6 @@ def step (st : St) (op impl : String) : St × Verdict :=
           let m := render (st.w.findRefs id typed)
           let sp := render (some s)
           if impl == sp then (st, if impl == m then .ok else .diff m)
-          else if !st.w.independent then (st, .propfail "union_refs class=layer_crossing")
           else (st, .propfail "union_refs")
       | _, _ => (st, .bad)
     | _ => (st, .bad)
